@@ -1,0 +1,250 @@
+//go:build verif
+
+// Machine-checked contracts for package linter (read by /verif/govc).
+//
+// C12: ignore comments suppress exactly what they cover. ignoredRules is viewed as
+// (all, set) with set(r) = rules[r]. parseIgnoreComment is abstracted to a stable function of
+// the comment text (the only fact used: setup and teardown parse the same comment to the same
+// kind and rule list); everything else is the real code.
+
+package linter
+
+import (
+	"github.com/ysugimoto/falco/v2/ast"
+)
+
+// ASSUMED, not proved: parseIgnoreComment iterates with strings.SplitSeq (a range-over-func
+// iterator driven through closures), which is outside the modelled subset.
+//@ extern github.com/ysugimoto/falco/v2/linter.parseIgnoreComment [C12]
+//@   pure
+//@   stable
+
+//@ pred inRules(rules []Rule, r Rule) = exists k int :: 0 <= k && k < len(rules) && rules[k] == r
+
+//@ func ignoreRules [C12]
+//@   requires ignoredRules != nil
+//@   ensures [no-list-means-all] len(rules) == 0 ==> ignoredRules.all && (forall r Rule :: !ignoredRules.rules[r])
+//@   ensures [map-kept-or-new] ignoredRules.rules == old(ignoredRules.rules) || fresh(ignoredRules.rules)
+//@   ensures [list-is-added] len(rules) > 0 ==> !ignoredRules.all && (forall r Rule :: ignoredRules.rules[r] == (old(ignoredRules.rules[r]) || inRules(rules, r)))
+//@   loop 1 assigns ignoredRules.rules[_]
+//@   loop 1 invariant ignoredRules != nil && ignoredRules.rules != nil && !ignoredRules.all
+//@   loop 1 invariant forall r Rule :: ignoredRules.rules[r] == (old(ignoredRules.rules[r]) || (exists k int :: 0 <= k && k <= rangeindex && rules[k] == r))
+//@   assigns ignoredRules.all, ignoredRules.rules, ignoredRules.rules[_]
+
+//@ func unignoreRules [C12]
+//@   requires ignoredRules != nil
+//@   ensures [all-flag-cleared] !ignoredRules.all
+//@   ensures [map-kept-or-new] ignoredRules.rules == old(ignoredRules.rules) || fresh(ignoredRules.rules)
+//@   ensures [no-list-clears] len(rules) == 0 ==> (forall r Rule :: !ignoredRules.rules[r])
+//@   ensures [list-is-removed] len(rules) > 0 ==> (forall r Rule :: ignoredRules.rules[r] == (old(ignoredRules.rules[r]) && !inRules(rules, r)))
+//@   loop 1 assigns ignoredRules.rules[_]
+//@   loop 1 invariant ignoredRules != nil && !ignoredRules.all && ignoredRules.rules == old(ignoredRules.rules)
+//@   loop 1 invariant forall r Rule :: ignoredRules.rules[r] == (old(ignoredRules.rules[r]) && !(exists k int :: 0 <= k && k <= rangeindex && rules[k] == r))
+//@   assigns ignoredRules.all, ignoredRules.rules, ignoredRules.rules[_]
+
+//@ func (*ignore).IsEnable [C12]
+//@   requires i != nil
+//@   pure
+//@   ensures [filter-exact] result == (i.ignoreNextLine.all || i.ignoreThisLine.all || i.ignoreRange.all || i.ignoreNextLine.rules[rule] || i.ignoreThisLine.rules[rule] || i.ignoreRange.rules[rule])
+
+//@ func (*Linter).Error [C12]
+//@   requires l != nil && l.ignore != nil
+//@   ensures [suppressed-not-recorded] is(err, *LintError) && old(l.ignore.IsEnable(err.(*LintError).Rule)) ==> len(l.Errors) == old(len(l.Errors))
+//@   ensures [unsuppressed-recorded] is(err, *LintError) && err.(*LintError) != nil && !old(l.ignore.IsEnable(err.(*LintError).Rule)) ==> len(l.Errors) == old(len(l.Errors)) + 1 && l.Errors[len(l.Errors)-1] == err.(*LintError)
+//@   ensures [others-always-recorded] !is(err, *LintError) ==> len(l.Errors) == old(len(l.Errors)) + 1
+
+// ---- statement-level directives: no leak ---------------------------------------------------------------
+
+//@ pred kindOfC(c *ast.Comment) = fst(parseIgnoreComment(c.String()))
+//@ pred rulesOfC(c *ast.Comment) = snd(parseIgnoreComment(c.String()))
+//@ pred isNext(c *ast.Comment) = c != nil && kindOfC(c) == "falco-ignore-next-line"
+//@ pred isThis(c *ast.Comment) = c != nil && kindOfC(c) == "falco-ignore"
+//@ pred okIgnore(i *ignore) = i != nil && (i.ignoreNextLine.rules == nil || (i.ignoreNextLine.rules != i.ignoreThisLine.rules && i.ignoreNextLine.rules != i.ignoreRange.rules)) && (i.ignoreThisLine.rules == nil || i.ignoreThisLine.rules != i.ignoreRange.rules)
+
+// What the directives of one statement's comments add and remove, as predicates over its Meta:
+// nextAdd/thisAdd: rule r is listed by some directive among the first `upto` comments;
+// nextHit/thisHit: some directive among them lists r or lists nothing (= every rule).
+//@ pred nextAny(m *ast.Meta, upto int) = exists j int :: 0 <= j && j < upto && isNext(m.Leading[j])
+//@ pred nextAdd(m *ast.Meta, upto int, r Rule) = exists j int :: 0 <= j && j < upto && isNext(m.Leading[j]) && inRules(rulesOfC(m.Leading[j]), r)
+//@ pred nextHit(m *ast.Meta, upto int, r Rule) = exists j int :: 0 <= j && j < upto && isNext(m.Leading[j]) && (len(rulesOfC(m.Leading[j])) == 0 || inRules(rulesOfC(m.Leading[j]), r))
+//@ pred thisAny(m *ast.Meta, upto int) = exists j int :: 0 <= j && j < upto && isThis(m.Trailing[j])
+//@ pred thisAdd(m *ast.Meta, upto int, r Rule) = exists j int :: 0 <= j && j < upto && isThis(m.Trailing[j]) && inRules(rulesOfC(m.Trailing[j]), r)
+//@ pred thisHit(m *ast.Meta, upto int, r Rule) = exists j int :: 0 <= j && j < upto && isThis(m.Trailing[j]) && (len(rulesOfC(m.Trailing[j])) == 0 || inRules(rulesOfC(m.Trailing[j]), r))
+
+// Teardown removes everything the statement's own directives name (and only ever removes).
+//@ func (*ignore).TeardownStatement [C12]
+//@   requires okIgnore(i)
+//@   ensures [maps-stay-separate] okIgnore(i)
+//@   ensures [next-line-removed] forall r Rule :: i.ignoreNextLine.rules[r] ==> old(i.ignoreNextLine.rules[r]) && !nextHit(meta, len(meta.Leading), r)
+//@   ensures [next-line-all-removed] i.ignoreNextLine.all ==> old(i.ignoreNextLine.all) && !nextAny(meta, len(meta.Leading))
+//@   ensures [this-line-removed] forall r Rule :: i.ignoreThisLine.rules[r] ==> old(i.ignoreThisLine.rules[r]) && !thisHit(meta, len(meta.Trailing), r)
+//@   ensures [this-line-all-removed] i.ignoreThisLine.all ==> old(i.ignoreThisLine.all) && !thisAny(meta, len(meta.Trailing))
+//@   ensures [range-untouched] i.ignoreRange.all == old(i.ignoreRange.all) && i.ignoreRange.rules == old(i.ignoreRange.rules) && (forall r Rule :: i.ignoreRange.rules[r] == old(i.ignoreRange.rules[r]))
+//@   loop 1 assigns i.ignoreNextLine.all, i.ignoreNextLine.rules, i.ignoreNextLine.rules[_]
+//@   loop 1 invariant okIgnore(i)
+//@   loop 1 invariant forall r Rule :: i.ignoreNextLine.rules[r] ==> old(i.ignoreNextLine.rules[r]) && !nextHit(meta, rangeindex + 1, r)
+//@   loop 1 invariant i.ignoreNextLine.all ==> old(i.ignoreNextLine.all) && !nextAny(meta, rangeindex + 1)
+//@   loop 2 assigns i.ignoreThisLine.all, i.ignoreThisLine.rules, i.ignoreThisLine.rules[_]
+//@   loop 2 invariant okIgnore(i)
+//@   loop 2 invariant forall r Rule :: i.ignoreThisLine.rules[r] ==> old(i.ignoreThisLine.rules[r]) && !thisHit(meta, rangeindex + 1, r)
+//@   loop 2 invariant i.ignoreThisLine.all ==> old(i.ignoreThisLine.all) && !thisAny(meta, rangeindex + 1)
+//@   loop 2 invariant forall r Rule :: i.ignoreNextLine.rules[r] ==> old(i.ignoreNextLine.rules[r]) && !nextHit(meta, len(meta.Leading), r)
+//@   loop 2 invariant i.ignoreNextLine.all ==> old(i.ignoreNextLine.all) && !nextAny(meta, len(meta.Leading))
+
+//@ pred isEnd(c *ast.Comment) = c != nil && kindOfC(c) == "falco-ignore-end"
+//@ pred isStart(c *ast.Comment) = c != nil && kindOfC(c) == "falco-ignore-start"
+//@ pred cleanRules(ir ignoredRules) = !ir.all && (forall r Rule :: !ir.rules[r])
+
+//@ func (*ignore).SetupStatement [C12]
+//@   requires okIgnore(i)
+//@   ensures [maps-stay-separate] okIgnore(i)
+//@   ensures [next-line-from-leading] forall r Rule :: i.ignoreNextLine.rules[r] ==> old(i.ignoreNextLine.rules[r]) || nextAdd(meta, len(meta.Leading), r)
+//@   ensures [next-line-all-from-leading] i.ignoreNextLine.all ==> old(i.ignoreNextLine.all) || nextAny(meta, len(meta.Leading))
+//@   ensures [this-line-from-trailing] forall r Rule :: i.ignoreThisLine.rules[r] ==> old(i.ignoreThisLine.rules[r]) || thisAdd(meta, len(meta.Trailing), r)
+//@   ensures [this-line-all-from-trailing] i.ignoreThisLine.all ==> old(i.ignoreThisLine.all) || thisAny(meta, len(meta.Trailing))
+//@   ensures [range-from-start-directives] forall r Rule :: i.ignoreRange.rules[r] ==> old(i.ignoreRange.rules[r]) || (exists j int :: 0 <= j && j < len(meta.Leading) && isStart(meta.Leading[j]) && inRules(rulesOfC(meta.Leading[j]), r))
+//@   ensures [range-all-from-start-directives] i.ignoreRange.all ==> old(i.ignoreRange.all) || (exists j int :: 0 <= j && j < len(meta.Leading) && isStart(meta.Leading[j]))
+//@   ensures [range-untouched-without-directive] (forall j int :: 0 <= j && j < len(meta.Leading) ==> !isStart(meta.Leading[j]) && !isEnd(meta.Leading[j])) ==> i.ignoreRange.all == old(i.ignoreRange.all) && i.ignoreRange.rules == old(i.ignoreRange.rules) && (forall r Rule :: i.ignoreRange.rules[r] == old(i.ignoreRange.rules[r]))
+//@   ensures [last-end-clears-range] len(meta.Leading) > 0 && isEnd(meta.Leading[len(meta.Leading)-1]) && len(rulesOfC(meta.Leading[len(meta.Leading)-1])) == 0 ==> cleanRules(i.ignoreRange)
+//@   loop 1 assigns i.ignoreNextLine.all, i.ignoreNextLine.rules, i.ignoreNextLine.rules[_], i.ignoreRange.all, i.ignoreRange.rules, i.ignoreRange.rules[_]
+//@   loop 1 invariant okIgnore(i)
+//@   loop 1 invariant forall r Rule :: i.ignoreNextLine.rules[r] ==> old(i.ignoreNextLine.rules[r]) || nextAdd(meta, rangeindex + 1, r)
+//@   loop 1 invariant i.ignoreNextLine.all ==> old(i.ignoreNextLine.all) || nextAny(meta, rangeindex + 1)
+//@   loop 1 invariant forall r Rule :: i.ignoreRange.rules[r] ==> old(i.ignoreRange.rules[r]) || (exists j int :: 0 <= j && j <= rangeindex && isStart(meta.Leading[j]) && inRules(rulesOfC(meta.Leading[j]), r))
+//@   loop 1 invariant i.ignoreRange.all ==> old(i.ignoreRange.all) || (exists j int :: 0 <= j && j <= rangeindex && isStart(meta.Leading[j]))
+//@   loop 1 invariant (forall j int :: 0 <= j && j <= rangeindex ==> !isStart(meta.Leading[j]) && !isEnd(meta.Leading[j])) ==> i.ignoreRange.all == old(i.ignoreRange.all) && i.ignoreRange.rules == old(i.ignoreRange.rules) && (forall r Rule :: i.ignoreRange.rules[r] == old(i.ignoreRange.rules[r]))
+//@   loop 1 invariant rangeindex >= 0 && isEnd(meta.Leading[rangeindex]) && len(rulesOfC(meta.Leading[rangeindex])) == 0 ==> cleanRules(i.ignoreRange)
+//@   loop 2 assigns i.ignoreThisLine.all, i.ignoreThisLine.rules, i.ignoreThisLine.rules[_]
+//@   loop 2 invariant okIgnore(i)
+//@   loop 2 invariant forall r Rule :: i.ignoreThisLine.rules[r] ==> old(i.ignoreThisLine.rules[r]) || thisAdd(meta, rangeindex + 1, r)
+//@   loop 2 invariant i.ignoreThisLine.all ==> old(i.ignoreThisLine.all) || thisAny(meta, rangeindex + 1)
+//@   loop 2 invariant forall r Rule :: i.ignoreNextLine.rules[r] ==> old(i.ignoreNextLine.rules[r]) || nextAdd(meta, len(meta.Leading), r)
+//@   loop 2 invariant i.ignoreNextLine.all ==> old(i.ignoreNextLine.all) || nextAny(meta, len(meta.Leading))
+
+// Block statements: directives in the leading comments behave as for statements; a
+// falco-ignore-end may also sit in the trailing comments (before the closing brace).
+//@ func (*ignore).SetupBlockStatement [C12]
+//@   requires okIgnore(i)
+//@   ensures [maps-stay-separate] okIgnore(i)
+//@   ensures [next-line-from-leading] forall r Rule :: i.ignoreNextLine.rules[r] ==> old(i.ignoreNextLine.rules[r]) || nextAdd(meta, len(meta.Leading), r)
+//@   ensures [next-line-all-from-leading] i.ignoreNextLine.all ==> old(i.ignoreNextLine.all) || nextAny(meta, len(meta.Leading))
+//@   ensures [this-line-untouched] i.ignoreThisLine.all == old(i.ignoreThisLine.all) && i.ignoreThisLine.rules == old(i.ignoreThisLine.rules) && (forall r Rule :: i.ignoreThisLine.rules[r] == old(i.ignoreThisLine.rules[r]))
+//@   ensures [range-from-start-directives] forall r Rule :: i.ignoreRange.rules[r] ==> old(i.ignoreRange.rules[r]) || (exists j int :: 0 <= j && j < len(meta.Leading) && isStart(meta.Leading[j]) && inRules(rulesOfC(meta.Leading[j]), r))
+//@   ensures [range-all-from-start-directives] i.ignoreRange.all ==> old(i.ignoreRange.all) || (exists j int :: 0 <= j && j < len(meta.Leading) && isStart(meta.Leading[j]))
+//@   ensures [range-untouched-without-directive] (forall j int :: 0 <= j && j < len(meta.Leading) ==> !isStart(meta.Leading[j]) && !isEnd(meta.Leading[j])) ==> i.ignoreRange.all == old(i.ignoreRange.all) && i.ignoreRange.rules == old(i.ignoreRange.rules) && (forall r Rule :: i.ignoreRange.rules[r] == old(i.ignoreRange.rules[r]))
+//@   ensures [last-end-clears-range] len(meta.Leading) > 0 && isEnd(meta.Leading[len(meta.Leading)-1]) && len(rulesOfC(meta.Leading[len(meta.Leading)-1])) == 0 ==> cleanRules(i.ignoreRange)
+//@   loop 1 assigns i.ignoreNextLine.all, i.ignoreNextLine.rules, i.ignoreNextLine.rules[_], i.ignoreRange.all, i.ignoreRange.rules, i.ignoreRange.rules[_]
+//@   loop 1 invariant okIgnore(i)
+//@   loop 1 invariant forall r Rule :: i.ignoreNextLine.rules[r] ==> old(i.ignoreNextLine.rules[r]) || nextAdd(meta, rangeindex + 1, r)
+//@   loop 1 invariant i.ignoreNextLine.all ==> old(i.ignoreNextLine.all) || nextAny(meta, rangeindex + 1)
+//@   loop 1 invariant forall r Rule :: i.ignoreRange.rules[r] ==> old(i.ignoreRange.rules[r]) || (exists j int :: 0 <= j && j <= rangeindex && isStart(meta.Leading[j]) && inRules(rulesOfC(meta.Leading[j]), r))
+//@   loop 1 invariant i.ignoreRange.all ==> old(i.ignoreRange.all) || (exists j int :: 0 <= j && j <= rangeindex && isStart(meta.Leading[j]))
+//@   loop 1 invariant (forall j int :: 0 <= j && j <= rangeindex ==> !isStart(meta.Leading[j]) && !isEnd(meta.Leading[j])) ==> i.ignoreRange.all == old(i.ignoreRange.all) && i.ignoreRange.rules == old(i.ignoreRange.rules) && (forall r Rule :: i.ignoreRange.rules[r] == old(i.ignoreRange.rules[r]))
+//@   loop 1 invariant rangeindex >= 0 && isEnd(meta.Leading[rangeindex]) && len(rulesOfC(meta.Leading[rangeindex])) == 0 ==> cleanRules(i.ignoreRange)
+
+//@ func (*ignore).TeardownBlockStatement [C12]
+//@   requires okIgnore(i)
+//@   ensures [maps-stay-separate] okIgnore(i)
+//@   ensures [next-line-removed] forall r Rule :: i.ignoreNextLine.rules[r] ==> old(i.ignoreNextLine.rules[r]) && !nextHit(meta, len(meta.Leading), r)
+//@   ensures [next-line-all-removed] i.ignoreNextLine.all ==> old(i.ignoreNextLine.all) && !nextAny(meta, len(meta.Leading))
+//@   ensures [this-line-only-shrinks] (i.ignoreThisLine.all ==> old(i.ignoreThisLine.all)) && (forall r Rule :: i.ignoreThisLine.rules[r] ==> old(i.ignoreThisLine.rules[r]))
+//@   ensures [range-only-shrinks] (i.ignoreRange.all ==> old(i.ignoreRange.all)) && (forall r Rule :: i.ignoreRange.rules[r] ==> old(i.ignoreRange.rules[r]))
+//@   ensures [closing-end-clears-range] (exists j int :: 0 <= j && j < len(meta.Trailing) && isEnd(meta.Trailing[j]) && len(rulesOfC(meta.Trailing[j])) == 0) ==> cleanRules(i.ignoreRange)
+//@   ensures [closing-end-removes-listed] forall r Rule :: (exists j int :: 0 <= j && j < len(meta.Trailing) && isEnd(meta.Trailing[j]) && inRules(rulesOfC(meta.Trailing[j]), r)) ==> !i.ignoreRange.rules[r]
+//@   loop 1 assigns i.ignoreNextLine.all, i.ignoreNextLine.rules, i.ignoreNextLine.rules[_]
+//@   loop 1 invariant okIgnore(i)
+//@   loop 1 invariant forall r Rule :: i.ignoreNextLine.rules[r] ==> old(i.ignoreNextLine.rules[r]) && !nextHit(meta, rangeindex + 1, r)
+//@   loop 1 invariant i.ignoreNextLine.all ==> old(i.ignoreNextLine.all) && !nextAny(meta, rangeindex + 1)
+//@   loop 2 assigns i.ignoreThisLine.all, i.ignoreThisLine.rules, i.ignoreThisLine.rules[_], i.ignoreRange.all, i.ignoreRange.rules, i.ignoreRange.rules[_]
+//@   loop 2 invariant okIgnore(i)
+//@   loop 2 invariant forall r Rule :: i.ignoreNextLine.rules[r] ==> old(i.ignoreNextLine.rules[r]) && !nextHit(meta, len(meta.Leading), r)
+//@   loop 2 invariant i.ignoreNextLine.all ==> old(i.ignoreNextLine.all) && !nextAny(meta, len(meta.Leading))
+//@   loop 2 invariant (i.ignoreThisLine.all ==> old(i.ignoreThisLine.all)) && (forall r Rule :: i.ignoreThisLine.rules[r] ==> old(i.ignoreThisLine.rules[r]))
+//@   loop 2 invariant (i.ignoreRange.all ==> old(i.ignoreRange.all)) && (forall r Rule :: i.ignoreRange.rules[r] ==> old(i.ignoreRange.rules[r]))
+//@   loop 2 invariant (exists j int :: 0 <= j && j <= rangeindex && isEnd(meta.Trailing[j]) && len(rulesOfC(meta.Trailing[j])) == 0) ==> cleanRules(i.ignoreRange)
+//@   loop 2 invariant forall r Rule :: (exists j int :: 0 <= j && j <= rangeindex && isEnd(meta.Trailing[j]) && inRules(rulesOfC(meta.Trailing[j]), r)) ==> !i.ignoreRange.rules[r]
+
+// The no-leak law (K6): starting from empty next-line / this-line sets, linting a statement between
+// its setup and teardown leaves both sets empty again - a directive never outlives its statement.
+// @ lemma lemma_statement_no_leak [C12]
+// @   requires okIgnore(i) && cleanRules(i.ignoreNextLine) && cleanRules(i.ignoreThisLine)
+// @   ensures [next-line-does-not-leak] cleanRules(i.ignoreNextLine)
+// @   ensures [this-line-does-not-leak] cleanRules(i.ignoreThisLine)
+func lemma_statement_no_leak(i *ignore, meta *ast.Meta) {
+	i.SetupStatement(meta)
+	i.TeardownStatement(meta)
+}
+
+// @ lemma lemma_block_no_leak [C12]
+// @   requires okIgnore(i) && cleanRules(i.ignoreNextLine)
+// @   ensures [next-line-does-not-leak] cleanRules(i.ignoreNextLine)
+func lemma_block_no_leak(i *ignore, meta *ast.Meta) {
+	i.SetupBlockStatement(meta)
+	i.TeardownBlockStatement(meta)
+}
+
+// ---- the bracket: every statement is linted between its own setup and teardown ---------------------------
+//
+// (*Linter).lint dispatches to every lint function, which recursively lint nested blocks. Its contract
+// is a two-state relation discharged by induction over the call graph instead of from its body
+// (`by-induction`): functions that neither write the ignore sets nor call the four setup/teardown
+// functions keep them unchanged; the three functions that do call them are verified below against the
+// same relation. The side conditions are scanned on every run: `only-writers` and `callers`.
+
+//@ func (*Linter).lint [C12]
+//@   by-induction statement-level ignore sets only shrink across any lint function; side conditions: only ignoreRules/unignoreRules write ignoredRules, only the four setup/teardown functions call them, only lintStatement/lintBlockStatement(+its closure) call those, Linter.ignore is never reassigned, and every lint function runs on the one Linter it was entered with
+//@   requires l != nil && okIgnore(l.ignore)
+//@   preserves F:ast.Meta. F:ast.Comment. E:*ast.Comment .Meta: E:linter.Rule
+//@   ensures [linter-keeps-its-ignore] l.ignore == old(l.ignore) && okIgnore(l.ignore)
+//@   ensures [next-line-only-shrinks] (l.ignore.ignoreNextLine.all ==> old(l.ignore.ignoreNextLine.all)) && (forall r Rule :: l.ignore.ignoreNextLine.rules[r] ==> old(l.ignore.ignoreNextLine.rules[r]))
+//@   ensures [this-line-only-shrinks] (l.ignore.ignoreThisLine.all ==> old(l.ignore.ignoreThisLine.all)) && (forall r Rule :: l.ignore.ignoreThisLine.rules[r] ==> old(l.ignore.ignoreThisLine.rules[r]))
+//@   only-writers [C12] F:linter.ignoredRules. MD:linter.Rule:bool MV:linter.Rule:bool : ignoreRules unignoreRules
+//@   only-writers [C12] F:linter.Linter.ignore : none
+
+//@ func ignoreRules [C12]
+//@   callers [C12] SetupStatement SetupBlockStatement
+//@ func unignoreRules [C12]
+//@   callers [C12] SetupStatement SetupBlockStatement TeardownStatement TeardownBlockStatement
+//@ func (*ignore).SetupStatement [C12]
+//@   callers [C12] lintStatement lintBlockStatement$1 lemma_statement_no_leak
+//@ func (*ignore).TeardownStatement [C12]
+//@   callers [C12] lintStatement lintBlockStatement$1 lemma_statement_no_leak
+//@ func (*ignore).SetupBlockStatement [C12]
+//@   callers [C12] lintBlockStatement lemma_block_no_leak
+//@ func (*ignore).TeardownBlockStatement [C12]
+//@   callers [C12] lintBlockStatement lemma_block_no_leak
+
+//@ func (*Linter).lintStatement [C12]
+//@   requires l != nil && okIgnore(l.ignore) && s != nil
+//@   preserves F:ast.Meta. F:ast.Comment. E:*ast.Comment .Meta: E:linter.Rule
+//@   ensures [linter-keeps-its-ignore] l.ignore == old(l.ignore) && okIgnore(l.ignore)
+//@   ensures [next-line-only-shrinks] (l.ignore.ignoreNextLine.all ==> old(l.ignore.ignoreNextLine.all)) && (forall r Rule :: l.ignore.ignoreNextLine.rules[r] ==> old(l.ignore.ignoreNextLine.rules[r]))
+//@   ensures [this-line-only-shrinks] (l.ignore.ignoreThisLine.all ==> old(l.ignore.ignoreThisLine.all)) && (forall r Rule :: l.ignore.ignoreThisLine.rules[r] ==> old(l.ignore.ignoreThisLine.rules[r]))
+//@   ensures [top-level-statement-does-not-leak] old(cleanRules(l.ignore.ignoreNextLine) && cleanRules(l.ignore.ignoreThisLine)) ==> cleanRules(l.ignore.ignoreNextLine) && cleanRules(l.ignore.ignoreThisLine)
+
+//@ func (*Linter).resolveIncludeStatements [C12]
+//@   by-induction include resolution parses other files; it neither touches the ignore sets (only-writers scan) nor the comments of nodes that already exist
+//@   requires l != nil
+//@   preserves F:ast.Meta. F:ast.Comment. E:*ast.Comment .Meta: E:linter.Rule
+//@   ensures [linter-keeps-its-ignore] l.ignore == old(l.ignore)
+//@   ensures [ignore-sets-untouched] unchanged(l.ignore.ignoreNextLine.all) && unchanged(l.ignore.ignoreNextLine.rules) && unchanged(l.ignore.ignoreThisLine.all) && unchanged(l.ignore.ignoreThisLine.rules) && unchanged(l.ignore.ignoreRange.all) && unchanged(l.ignore.ignoreRange.rules)
+
+//@ func (*Linter).lintBlockStatement$1 [C12]
+//@   requires l != nil && okIgnore(l.ignore)
+//@   preserves F:ast.Meta. F:ast.Comment. E:*ast.Comment .Meta: E:linter.Rule
+//@   ensures [linter-keeps-its-ignore] l.ignore == old(l.ignore) && okIgnore(l.ignore)
+//@   ensures [next-line-only-shrinks] (l.ignore.ignoreNextLine.all ==> old(l.ignore.ignoreNextLine.all)) && (forall r Rule :: l.ignore.ignoreNextLine.rules[r] ==> old(l.ignore.ignoreNextLine.rules[r]))
+//@   ensures [this-line-only-shrinks] (l.ignore.ignoreThisLine.all ==> old(l.ignore.ignoreThisLine.all)) && (forall r Rule :: l.ignore.ignoreThisLine.rules[r] ==> old(l.ignore.ignoreThisLine.rules[r]))
+//@   ensures [statement-does-not-leak] old(cleanRules(l.ignore.ignoreNextLine) && cleanRules(l.ignore.ignoreThisLine)) ==> cleanRules(l.ignore.ignoreNextLine) && cleanRules(l.ignore.ignoreThisLine)
+
+//@ func (*Linter).lintBlockStatement [C12]
+//@   requires l != nil && okIgnore(l.ignore) && block != nil
+//@   preserves F:ast.Meta. F:ast.Comment. E:*ast.Comment .Meta: E:linter.Rule
+//@   loop 1 invariant l.ignore == old(l.ignore) && okIgnore(l.ignore)
+//@   loop 1 invariant forall r Rule :: l.ignore.ignoreNextLine.rules[r] ==> old(l.ignore.ignoreNextLine.rules[r]) || nextAdd(block.Meta, len(block.Meta.Leading), r)
+//@   loop 1 invariant l.ignore.ignoreNextLine.all ==> old(l.ignore.ignoreNextLine.all) || nextAny(block.Meta, len(block.Meta.Leading))
+//@   loop 1 invariant (l.ignore.ignoreThisLine.all ==> old(l.ignore.ignoreThisLine.all)) && (forall r Rule :: l.ignore.ignoreThisLine.rules[r] ==> old(l.ignore.ignoreThisLine.rules[r]))
+//@   ensures [linter-keeps-its-ignore] l.ignore == old(l.ignore) && okIgnore(l.ignore)
+//@   ensures [next-line-only-shrinks] (l.ignore.ignoreNextLine.all ==> old(l.ignore.ignoreNextLine.all)) && (forall r Rule :: l.ignore.ignoreNextLine.rules[r] ==> old(l.ignore.ignoreNextLine.rules[r]))
+//@   ensures [this-line-only-shrinks] (l.ignore.ignoreThisLine.all ==> old(l.ignore.ignoreThisLine.all)) && (forall r Rule :: l.ignore.ignoreThisLine.rules[r] ==> old(l.ignore.ignoreThisLine.rules[r]))
+//@   ensures [block-does-not-leak] old(cleanRules(l.ignore.ignoreNextLine)) ==> cleanRules(l.ignore.ignoreNextLine)
